@@ -4,7 +4,7 @@
 //	yieldgen <out-dir> <src-file>=<package-relative-name> ...
 //
 // Before every statement that calls a synchronisation primitive by name (Lock, RLock, sync.Map's Load / Store /
-// LoadOrStore / LoadAndDelete / CompareAndSwap / Swap) or sends on a channel, a call `verifyield.Yield()` is
+// LoadOrStore / LoadAndDelete / CompareAndSwap / Swap), writes to a connection (Write) or sends on a channel, a call `verifyield.Yield()` is
 // inserted and the import added.  With no hook installed Yield does nothing; the simulator installs a hook that
 // calls runtime.Gosched() when its seeded choice stream says so, which lets another handler released in the same
 // step run between, say, a Load that missed and the Store that follows.
@@ -24,7 +24,7 @@ import (
 
 const importPath = "github.com/honeytrap/honeytrap/verifyield"
 
-var names = map[string]bool{"Lock": true, "RLock": true, "Load": true, "Store": true, "LoadOrStore": true, "LoadAndDelete": true, "CompareAndSwap": true, "Swap": true}
+var names = map[string]bool{"Lock": true, "RLock": true, "Load": true, "Store": true, "LoadOrStore": true, "LoadAndDelete": true, "CompareAndSwap": true, "Swap": true, "Write": true}
 
 // callsSync: the expression (not descending into function literals) contains a call to one of the names.
 func callsSync(n ast.Node) bool {
